@@ -24,6 +24,7 @@ typedef struct {
     double d;
     long double L;
     int sn;          /* string length, -1 NULL */
+    int unterm;      /* placed without a terminator in front of an inaccessible page */
     long sv[300];
     int bytes;       /* sentinel size */
     void *ptr;       /* realised pointer for s/S/n/b */
@@ -88,7 +89,7 @@ static void exact_double(FILE *o, long double x, int isld) {
 }
 
 int main(int argc, char **argv) {
-    region_t R;
+    region_t R, U;
     char *NOZ;
     long id;
     char fn[40];
@@ -101,6 +102,7 @@ int main(int argc, char **argv) {
     h_install_signals();
     h_install_handlers();
     R = h_region(8);
+    U = h_region(1);        /* string arguments without a terminator: flush against its inaccessible page */
     NOZ = h_nozone();
     {
         FILE *cin = fdopen(dup(0), "r");
@@ -141,7 +143,7 @@ int main(int argc, char **argv) {
                 char t[4];
                 fscanf(cin, "%3s", t);
                 A[i].t = t[0];
-                A[i].ptr = NULL;
+                A[i].ptr = NULL; A[i].unterm = 0;
                 switch (t[0]) {
                 case 'i': fscanf(cin, "%ld", &A[i].i); break;
                 case 'd': { char b[64]; fscanf(cin, "%63s", b); A[i].d = strtod(b, NULL); } break;
@@ -153,6 +155,12 @@ int main(int argc, char **argv) {
                         if (t[0] == 's') { char *p = malloc(A[i].sn + 1); for (j = 0; j < A[i].sn; j++) p[j] = (char)A[i].sv[j]; p[A[i].sn] = 0; A[i].ptr = p; }
                         else { wchar_t *p = malloc((A[i].sn + 1) * sizeof(wchar_t)); for (j = 0; j < A[i].sn; j++) p[j] = (wchar_t)A[i].sv[j]; p[A[i].sn] = 0; A[i].ptr = p; }
                     }
+                    break;
+                case 'u':   /* a narrow string argument of exactly sn bytes and no terminator, the next byte is inaccessible (%.Ns must not look at it) */
+                    fscanf(cin, "%d", &A[i].sn);
+                    for (j = 0; j < A[i].sn; j++) fscanf(cin, "%ld", &A[i].sv[j]);
+                    { char *q = U.rw + U.rwlen - A[i].sn; for (j = 0; j < A[i].sn; j++) q[j] = (char)A[i].sv[j]; A[i].ptr = q; }
+                    A[i].t = 's'; A[i].unterm = 1;
                     break;
                 case 'n': fscanf(cin, "%d", &A[i].bytes); A[i].ptr = sent[i]; break;
                 case 'b': fscanf(cin, "%d", &A[i].bytes); A[i].ptr = scratch[i]; break;
@@ -317,7 +325,7 @@ int main(int argc, char **argv) {
             }
             fflush(evout);
             if (stream) fclose(stream);
-            for (i = 0; i < nargs; i++) if ((A[i].t == 's' || A[i].t == 'S') && A[i].ptr) free(A[i].ptr);
+            for (i = 0; i < nargs; i++) if ((A[i].t == 's' || A[i].t == 'S') && A[i].ptr && !A[i].unterm) free(A[i].ptr);
         }
     }
     return 0;
